@@ -113,4 +113,11 @@ var props = []Prop{
 		Bounds:  "source history: 3 or 5 creations followed by up to 2 (thorough 3) removals of symbolically chosen alive entities, each optionally followed by a re-creation (free-list depth 0..3, mixed generations); 6 triples of capacity increments (1..4) for source and the two receivers; receiver 1 = fresh world loaded at once (Alive of every issued handle, dump(loaded) == dump field by field incl. the Alive sequence); then the source is optionally mutated (removal / creation); receiver 2 = fresh or reset world loaded later from the same dump object (snapshot semantics); then a common suffix of 2 (thorough 3) creations/removals on all worlds with identical handles and Alive answers, final dumps equal (Alive as a set); refusal for worlds with entities, with recycled ids but no reset, locked; acceptance after Reset",
 		Outside: "the JSON clause (encoding/json is not encodable by the engine); dumps not produced by DumpEntities; more than 8 handles",
 	},
+	{
+		ID: "C15",
+		Harnesses: []H{{Pkg: "ecs", Fn: "HC15_Reset"}, {Pkg: "ecs", Fn: "HC15_Reset", Tags: "tiny", Tier: "thorough"}},
+		Conform: []H{{Pkg: "ecs", Fn: "HSmoke"}, {Pkg: "ecs", Fn: "HConf_Prefixes"}},
+		Bounds:  "a filter out of 5 (mask, relation component, relation filter with zero target / with the first handle a world issues, relation filter over a non-relation component filter) registered before the history; 6 prefixes (populated tables, two parents, dead target, retired table, recycled ids, re-issued target id), resources added; right before the reset optionally: every entity removed one by one, or a query opened and closed; then Reset (thorough: two cycles): unlocked, no resources, no entities, registered filter = original filter, invariant; then 2 operations with a recording listener: behaviour must be that of a fresh world, i.e. handles {1,0},{2,0},.. with last-removed-first re-use (handle-sequence model), events per the C11 oracle, observables and queries (plain and registered) per the model, resource ids still valid; 2 configurations (thorough 24)",
+		Outside: "more than 2 operations after the reset; more than two reset cycles",
+	},
 }
